@@ -415,3 +415,22 @@ Proof.
   - eapply m_modify_inplace; eauto. apply remove_inplace. destruct (is_slice i); auto; discriminate.
   - eapply m_modify_inplace; eauto. apply consume_inplace.
 Qed.
+
+(* the statement `pop x[p]` / `remove x[p][i]` / `consume x[p]` (result discarded) on a variable whose path is unshared *)
+Lemma exec_mod_inplace x m : is_inplace_lop m = true -> forall h rs sg cur st' ok,
+  Inv h (handles_list rs) -> repr_list h rs sg -> nth_error rs x = Some cur -> uleaf h cur (lop_path m) ->
+  m_exec_s (mkst h rs) (SMod None x m) = (st', ok) ->
+  same_cost h (mheap st') /\ (lop_path m <> [] -> exists cur', nth_error (roots st') x = Some cur' /\ same_root cur cur').
+Proof.
+  intros HM h rs sg cur st' ok I Hrs Ex UL E. simpl in E. rewrite Ex in E.
+  destruct (m_lop m h cur) as [[h1 cur'] r] eqn:EL.
+  destruct (repr_list_nth _ _ _ _ _ Hrs Ex) as [t [Ht Hcur]].
+  assert (I0 : Inv h (handles cur ++ handles_list (set_root rs x HNull))).
+  { eapply Inv_equiv; [|exact I]. intro l. pose proof (roots_split x rs cur Ex l). revert H. occ_tac. }
+  destruct (m_lop_inplace m HM h cur t _ h1 cur' r I0 Hcur UL EL) as [[C1 L1] SR].
+  assert (NX : nth_error (set_root rs x cur') x = Some cur').
+  { unfold set_root, hset_field. clear - Ex. revert x Ex. induction rs as [|a rs IH]; intros [|x] Ex; simpl in *; try discriminate; auto. }
+  destruct r as [res|]; inversion E; subst; clear E; simpl.
+  - split; [revert C1 L1; cost; intros; split; congruence|]. intro N. exists cur'. split; auto.
+  - split; [split; auto|]. intro N. exists cur'. split; auto.
+Qed.
